@@ -1714,10 +1714,30 @@ PROBES = [
 ]
 
 
+def deep_probe(kind, n=18):
+    """n nested regions; a name bound before, rebound half way down, read in the innermost region and after: the lookup chain of the
+    innermost read is n tables long (a table folded or reordered past some length shows only here)"""
+    inner = [['read', 'a', 951], ['read', 'b', 953]]
+    for d in range(n, 0, -1):
+        body = inner
+        if d == n // 2:
+            body = [['bind', 'a', 952]] + body
+        if d == n - 2:
+            body = [['bind', 'b', 954]] + body
+        # (no deep `for` nests: supp itself needs 25 s for 14 nested for loops)
+        if kind == 'if' or (kind == 'mixed' and d % 2 == 0):
+            inner = [['if', ['seq', []], ['seq', body], ['seq', []]]]
+        elif kind == 'for':
+            inner = [['for', ['seq', []], [['bind', 'i', 960 + d]], ['seq', body], ['seq', []]]]
+        else:
+            inner = [['while', ['seq', []], ['seq', body], ['seq', []]]]
+    return ['seq', [['bind', 'a', 951], ['bind', 'b', 953]] + inner + [['read', 'a', 952], ['read', 'b', 955]]]
+
+
 def probe_programs():
     """every fixed probe at module level and wrapped in a function"""
     out = []
-    for n, prog in enumerate(PROBES):
+    for n, prog in enumerate(PROBES + [deep_probe('if', 26), deep_probe('for', 5), deep_probe('while', 17), deep_probe('mixed', 30)]):
         out.append((prog, {}, 'module', {}))
         out.append((['seq', [['def', ['seq', []], ['bind', 'main', 990 + n], [], prog]]], {}, 'function', {}))
     return out
